@@ -6,56 +6,54 @@
 (* aspects of the ORIGINAL geometry it still carries:                      *)
 (*   tris   the triangle sequence (same triangles, same order)  - always   *)
 (*   vid    vertex identity: the same vertex array and face index array    *)
-(*   fc     per-face colours           vc   per-vertex colours             *)
+(*   fc     per-face colours                                               *)
+(*   vc     per-vertex colours, read corner by corner of every triangle    *)
+(*          (so they stay comparable when a format renumbers vertices)     *)
 (*   alpha  the alpha channel of whichever colours are carried             *)
-(* Each (format, option) pair has a capability record: what it stores.     *)
-(* RoundTrip(fmt) is the projection onto what the format carries; chains   *)
-(* of hops compose projections, so the state after f1;f2;f3 is the meet.   *)
-(* "Colours ... where the format carries them" is read conservatively: a   *)
-(* colour kind is demanded of a format only if its exporter writes it by   *)
-(* design (binary PLY, dict: both kinds with alpha; ascii PLY, GLB: vertex *)
-(* colours; OBJ: vertex RGB without alpha; STL, OFF, 3MF, DAE: none).       *)
-(* Export never modifies the source (checked by the harness via hashes).   *)
+(*   unref  the mesh (still) has vertices that no face references: a       *)
+(*          format that drops them keeps vertex identity only for meshes   *)
+(*          that have none                                                 *)
+(* Each (format, option variant) has a capability record (ExchangeCaps):   *)
+(* what it stores.  RoundTrip(s, f) is the projection onto what f carries; *)
+(* chains of hops compose projections, so the state after f1;f2;f3 is the  *)
+(* meet.  Export never modifies the source (checked by the harness via     *)
+(* hashes and array copies).                                               *)
 (***************************************************************************)
-EXTENDS Integers, Sequences, FiniteSets, TLC, Json
+EXTENDS ExchangeCaps, Json
 
 CONSTANTS Formats, MaxHops
-VARIABLES chain, st
-vars == <<chain, st>>
+VARIABLES geom, chain, st
+vars == <<geom, chain, st>>
 
-Cap(f) ==
-    CASE f = "stl"       -> [vid |-> FALSE, fc |-> FALSE, vc |-> FALSE, alpha |-> FALSE]
-      [] f = "stl_ascii" -> [vid |-> FALSE, fc |-> FALSE, vc |-> FALSE, alpha |-> FALSE]
-      [] f = "dae"       -> [vid |-> FALSE, fc |-> FALSE, vc |-> FALSE, alpha |-> FALSE]
-      [] f = "off"       -> [vid |-> TRUE,  fc |-> FALSE, vc |-> FALSE, alpha |-> FALSE]
-      [] f = "3mf"       -> [vid |-> TRUE,  fc |-> FALSE, vc |-> FALSE, alpha |-> FALSE]
-      [] f = "obj"       -> [vid |-> TRUE,  fc |-> FALSE, vc |-> TRUE,  alpha |-> FALSE]
-      [] f = "glb"       -> [vid |-> TRUE,  fc |-> FALSE, vc |-> TRUE,  alpha |-> TRUE]
-      [] f = "ply_ascii" -> [vid |-> TRUE,  fc |-> FALSE, vc |-> TRUE,  alpha |-> TRUE]
-      [] f = "ply"       -> [vid |-> TRUE,  fc |-> TRUE,  vc |-> TRUE,  alpha |-> TRUE]
-      [] f = "dict"      -> [vid |-> TRUE,  fc |-> TRUE,  vc |-> TRUE,  alpha |-> TRUE]
-      [] f = "dict64"    -> [vid |-> TRUE,  fc |-> TRUE,  vc |-> TRUE,  alpha |-> TRUE]
+GeomClasses == {"clean", "unref"}
 
-Top == [vid |-> TRUE, fc |-> TRUE, vc |-> TRUE, alpha |-> TRUE]
-Meet(a, b) == [vid |-> a.vid /\ b.vid, fc |-> a.fc /\ b.fc, vc |-> a.vc /\ b.vc, alpha |-> a.alpha /\ b.alpha]
-\* vertex colours live on vertices: once vertex identity is gone they cannot be compared with the original
-\* ones, so they only count while vid holds; likewise alpha only means something while a colour kind survives
-Norm(s) == [vid |-> s.vid, fc |-> s.fc, vc |-> s.vc /\ s.vid, alpha |-> s.alpha /\ (s.fc \/ (s.vc /\ s.vid))]
-RoundTrip(s, f) == Norm(Meet(s, Cap(f)))
-
-Init == chain = <<>> /\ st = Top
+Init == /\ geom \in GeomClasses
+        /\ chain = <<>>
+        /\ st = Top(geom = "unref")
 Hop(f) == /\ Len(chain) < MaxHops
           /\ st' = RoundTrip(st, f)
           /\ chain' = Append(chain, [fmt |-> f, exp |-> RoundTrip(st, f)])
+          /\ UNCHANGED geom
 Next == \E f \in Formats : Hop(f)
 Spec == Init /\ [][Next]_vars
 
 \* projection algebra
 Idempotent == \A f \in Formats : RoundTrip(RoundTrip(st, f), f) = RoundTrip(st, f)
 Monotone == \A f \in Formats : LET r == RoundTrip(st, f) IN
-              (r.vid => st.vid) /\ (r.fc => st.fc) /\ (r.vc => st.vc) /\ (r.alpha => st.alpha)
+              (r.vid => st.vid) /\ (r.fc => st.fc) /\ (r.vc => st.vc) /\ (r.alpha => st.alpha) /\ (r.unref => st.unref)
 Commute == \A f, g \in Formats : RoundTrip(RoundTrip(st, f), g) = RoundTrip(RoundTrip(st, g), f)
+\* the state after any chain is the meet of the capabilities on it (closed form of the fold)
+MeetOfChain ==
+    LET fs == {chain[i].fmt : i \in DOMAIN chain}
+        u0 == geom = "unref"
+        fc == \A f \in fs : Cap(f).fc
+        vc == \A f \in fs : Cap(f).vc
+    IN st = [vid   |-> (\A f \in fs : Cap(f).vid) /\ (~u0 \/ \A f \in fs : Cap(f).unref),
+             fc    |-> fc,
+             vc    |-> vc,
+             alpha |-> (\A f \in fs : Cap(f).alpha) /\ (fc \/ vc),
+             unref |-> u0 /\ \A f \in fs : Cap(f).unref /\ Cap(f).vid]
 
-Emit == (Len(chain) >= 1) => PrintT(ToJson(chain))
-MeshFormats == {"stl", "stl_ascii", "dae", "off", "3mf", "obj", "glb", "ply_ascii", "ply", "dict", "dict64"}
+Emit == (Len(chain) >= 1) => PrintT(ToJson([geom |-> geom, hops |-> chain]))
+EmitTables == (Len(chain) = 0 /\ geom = "clean") => PrintT(ToJson(Tables))
 =============================================================================
